@@ -121,6 +121,10 @@ def run(ctx, rep):
     # ---- Z4 ------------------------------------------------------------------------------------
     has = any("<preflate_rs::preflate_error::PreflateError as std::convert::From<std::io::Error>>::from" in i["name"] for i in F.instances)
     rep.add("Z4", "From<io::Error>-for-PreflateError", has, "", "the io::Error -> PreflateError conversion used by `?` is instantiated")
+    # "does not panic": every explicit failure construct mono-reachable from the two wrappers — including the error
+    # conversions that `?` calls — must be a row of the reviewed table (same table and obligations as C01/A6, C05/X1)
+    from . import site
+    site.check_sites(F, rep, "Z4", [PC + "decompress_zstd", PC + "compress_zstd"], 40)
 
 
 def _roots(body, opnd):
